@@ -359,7 +359,10 @@ class Hist:
         out = []
         for _ in range(k):
             self.n += 1
-            out.append(f"L{self.n} " + self.r.pick(["alpha", "beta()", "x = 1;", "return y", "fn f {", "}", "// note"]))
+            if self.r.chance(1, 7):
+                out.append(self.r.pick(["}", "", "    }", "// ---"]))        # texts that repeat (blank lines, braces)
+            else:
+                out.append(f"L{self.n} " + self.r.pick(["alpha", "beta()", "x = 1;", "return y", "fn f {", "}", "// note"]))
         return out
 
 
@@ -375,9 +378,17 @@ def gen_history(r):
     """list of steps; every step ends in one commit (merge: three)."""
     h = Hist(r)
     files = {}
+    nonl = set()
+
+    def text_of(ls, path=None):
+        t = "\n".join(ls)
+        return t if (path in nonl and ls) else t + ("\n" if ls else "")
+
     for n in r.shuffle(NAMES)[:r.range(1, 2)]:
         files[n] = h.fresh(r.range(4, 9))
-    steps = [("base", {p: text_of(ls) for p, ls in files.items()})]
+        if r.chance(1, 8):
+            nonl.add(n)
+    steps = [("base", {p: text_of(ls, p) for p, ls in files.items()})]
     kinds = {}
     nsteps = r.range(3, 7)
     counter = [0]
@@ -414,44 +425,47 @@ def gen_history(r):
                 q = r.pick(paths)
                 a = r.weighted([(2, None), (3, 0), (2, 1), (1, 2)])
                 edit(q, a)
-                eds.append((q, a, text_of(files[q])))
+                eds.append((q, a, text_of(files[q], q)))
             steps.append(("edit", eds))
         elif kind == "new":
             counter[0] += 1
             q = f"new{counter[0]}.txt"
             files[q] = h.fresh(r.range(1, 4))
-            steps.append(("edit", [(q, actor, text_of(files[q]))]))
+            steps.append(("edit", [(q, actor, text_of(files[q], q))]))
         elif kind in ("mv", "mv_edit"):
             counter[0] += 1
             q = r.pick([f"moved{counter[0]}.txt", f"sub/{counter[0]}/" + os.path.basename(p), p + ".bak"])
             files[q] = files.pop(p)
+            if p in nonl:
+                nonl.discard(p)
+                nonl.add(q)
             ed = None
             if kind == "mv_edit":
                 edit(q, actor)
-                ed = (actor, text_of(files[q]))
+                ed = (actor, text_of(files[q], q))
             steps.append(("mv", p, q, ed))
         elif kind == "cp":
             counter[0] += 1
             q = f"copy{counter[0]}.txt"
             files[q] = list(files[p])
-            steps.append(("cp", p, q, actor, text_of(files[q])))
+            steps.append(("cp", p, q, actor, text_of(files[q], q)))
         elif kind == "ws":
             ls = files[p]
             pos = r.below(len(ls))
             for k in range(pos, min(len(ls), pos + r.range(1, 3))):
                 ls[k] = "    " + ls[k]
-            steps.append(("ws", p, text_of(ls)))
+            steps.append(("ws", p, text_of(ls, p)))
         elif kind == "fmt":
             ls = files[p]
             for k in range(len(ls)):
                 if r.chance(1, 2):
                     ls[k] = ls[k] + " // fmt"
-            steps.append(("fmt", p, text_of(ls)))
+            steps.append(("fmt", p, text_of(ls, p)))
         else:  # merge: side branch edits the tail of p (or another file), main edits its head
             ls = files[p]
             if len(ls) < 7:
                 ls.extend(h.fresh(7 - len(ls)))
-                steps.append(("edit", [(p, None, text_of(ls))]))
+                steps.append(("edit", [(p, None, text_of(ls, p))]))
             base_text = list(ls)
             side = list(base_text)
             side[len(side) - 1:len(side)] = h.fresh(r.range(1, 2))
@@ -461,7 +475,7 @@ def gen_history(r):
             a_side = r.weighted([(1, None), (3, 0), (2, 1)])
             a_main = r.weighted([(2, None), (2, 1), (1, 2)])
             files[p] = merged
-            steps.append(("merge", p, a_side, text_of(side), a_main, text_of(main), text_of(merged)))
+            steps.append(("merge", p, a_side, text_of(side, p), a_main, text_of(main, p), text_of(merged, p)))
         kinds[kind] = kinds.get(kind, 0) + 1
     return steps, kinds
 
@@ -686,7 +700,9 @@ def lib_compare(sim, notes, home, path, mode_opts, stats):
         gopts += ["--ignore-rev", s]
     for a, b in mode_opts.get("ranges", []):
         gopts += ["-L", f"{a},{b}"]
-    if mode_opts.get("rev"):
+    if mode_opts.get("rev") and mode_opts.get("old"):
+        gopts.append(mode_opts["old"] + ".." + mode_opts["rev"])
+    elif mode_opts.get("rev"):
         gopts.append(mode_opts["rev"])
     rc, out, err = sim.realgit("blame", "--line-porcelain", *gopts, "--", path)
     if rc != 0:
@@ -696,7 +712,8 @@ def lib_compare(sim, notes, home, path, mode_opts, stats):
     body = " ".join(C.sx(x) for x in [
         C.cps(sim.repo), C.cps(path), [1, 1 if mode_opts.get("w") else 0],
         C.cps(mode_opts["rev"]) if mode_opts.get("rev") else "none",
-        [[a, b] for a, b in mode_opts.get("ranges", [])], [C.cps(s) for s in mode_opts.get("ign", [])], "none"])
+        [[a, b] for a, b in mode_opts.get("ranges", [])], [C.cps(s) for s in mode_opts.get("ign", [])], "none",
+        C.cps(mode_opts["old"]) if mode_opts.get("old") else "none"])
     res = run_cases_env(C.VHARNESS, "c09-real", [("x", body)], env=harness_env(sim, home)).get("x")
     d = parse_result(res)
     stats["lib_cases"] += 1
@@ -721,6 +738,34 @@ def lib_compare(sim, notes, home, path, mode_opts, stats):
              "expected_ai": {str(l): sorted(v) for l, v in exp_ai.items()}, "got_ai": {str(l): v for l, v in got_ai.items()}}], set()
 
 
+def foreign_for(sim, shas):
+    """the grep fallback, computed independently: for every session listed by a note of `shas` without a prompt record
+    in that note, the newest (commit date) commit whose note contains "<hash>", read without the version check."""
+    need = set()
+    for s in shas:
+        n = sim.note(s)
+        if n and n.get("ok"):
+            for f in n["files"].values():
+                for h in f:
+                    if h not in n.get("prompts", {}):
+                        need.add(h)
+    if not need:
+        return []
+    objs = [o for _, o in sim.notes_list()]
+    rc, out, _ = sim.realgit("log", "--format=%H", "--date-order", "--no-walk", *objs)
+    order = out.split() if rc == 0 else objs
+    raws = {o: sim.note_raw(o) for o in order}
+    res = []
+    for h in sorted(need):
+        for o in order:
+            if raws[o] and ('"%s"' % h) in raws[o]:
+                _, view = note_for_model(raws[o])
+                if view and h in view:
+                    res.append([C.cps(h), C.cps(view[h][0]), C.cps(view[h][1]) if view[h][1] is not None else "none"])
+                break
+    return res
+
+
 def tie_on_real(sim, notes, home, path, text, model_ok, use_hash=1):
     """model vs in-process pipeline on the real porcelain text of this repository (wrapper feeds the same text)."""
     shas = sorted(set(m.group(1) for m in re.finditer(r"^([0-9a-f]{40}) ", text, re.M)))
@@ -730,7 +775,7 @@ def tie_on_real(sim, notes, home, path, text, model_ok, use_hash=1):
         ntab.append([C.cps(s), nm])
     o = [use_hash, 0, 0, 1]
     hb = " ".join(C.sx(x) for x in [C.cps(sim.repo), C.cps(path), o, C.cps(text)])
-    mb = " ".join(C.sx(x) for x in [C.cps(path), o, C.cps(text), ntab, []])
+    mb = " ".join(C.sx(x) for x in [C.cps(path), o, C.cps(text), ntab, foreign_for(sim, shas)])
     hr = run_cases_env(C.VHARNESS, "c09-pipe", [("t", hb)], env=harness_env(sim, home)).get("t")
     if not model_ok:
         return None, hr, None
@@ -837,6 +882,12 @@ def scenario(args):
             ofiles = [p for p in sim.ls_files_at(old) if p in files and (sim.file_at(old, p) or "")]
             for p in ofiles[:2]:
                 f, k = lib_compare(sim, notes, home, p, {"rev": old}, stats)
+                fails += f
+                known |= k
+            # a revision range old..HEAD (lines older than `old` are blamed on the boundary commit)
+            for p in [q for q, _ in nonempty if q in ofiles][:1]:
+                f, k = lib_compare(sim, notes, home, p, {"rev": head, "old": old}, stats)
+                stats["optsets"]["range old..new"] = stats["optsets"].get("range old..new", 0) + 1
                 fails += f
                 known |= k
             rc, _, _ = sim.git("checkout", "-q", "--detach", old)
@@ -1120,8 +1171,8 @@ def generated_tie(ctx, n_cases):
 
 # ------------------------------------------------------------------ the check
 def run(ctx):
-    n_hist = 60 if ctx.tier == "quick" else 2500
-    n_gen = 1500 if ctx.tier == "quick" else 60000
+    n_hist = 60 if ctx.tier == "quick" else 1500
+    n_gen = 1500 if ctx.tier == "quick" else 30000
     obligations, violations, known_seen = [], [], set()
 
     gen = generated_tie(ctx, n_gen)
